@@ -67,7 +67,10 @@ class Replayer:
 
             def defuzzify(self, term, minimum, maximum):
                 if self.next is None:
-                    raise RuntimeError("scripted defuzzifier failure")
+                    # whatever the class of the failure: run-time and value errors, and the arithmetic errors numpy raises under
+                    # np.errstate(all="raise") (0/0 on an empty fuzzy output)
+                    Stub.failures = getattr(Stub, "failures", 0) + 1
+                    raise (RuntimeError, ValueError, FloatingPointError, ZeroDivisionError, OverflowError)[Stub.failures % 5]("scripted defuzzifier failure")
                 nxt, self.next = self.next, None
                 return nxt
 
@@ -105,7 +108,7 @@ class Replayer:
                         stub.next = None
                         ov.defuzzify()
                         return i, "an exception", "defuzzify() returned normally"
-                    except (RuntimeError, ValueError):
+                    except (RuntimeError, ValueError, ArithmeticError):
                         pass
                     finally:
                         ov.defuzzifier = stub
